@@ -1,6 +1,7 @@
 package seq
 
 import (
+	"fmt"
 	"context"
 	"encoding/binary"
 	"errors"
@@ -119,6 +120,23 @@ type xportObs struct {
 	Err        error      // the error that ended the loop
 	FromReader bool       // Err came from Conn.Reader (no message was open from the caller's view)
 	Stuck      string     // the library did not make progress (guard, not a timeout)
+	// AfterErr: the reader that had just failed was read once more and reported a
+	// clean end of message or more data ("" = it failed again, as it must)
+	AfterErr string
+}
+
+// xportReadAfterError reads once more from a message reader whose last Read
+// failed: a failed message never ends cleanly later on and yields nothing more.
+func xportReadAfterError(r io.Reader) string {
+	var b [16]byte
+	n, err := r.Read(b[:])
+	switch {
+	case n > 0:
+		return fmt.Sprintf("delivered %d more bytes (%x), err=%v", n, b[:n], err)
+	case err == io.EOF:
+		return "reported a clean end of message (0, io.EOF)"
+	}
+	return ""
 }
 
 const xportMaxMsgs = 4096
@@ -173,6 +191,7 @@ func xportReadAll(ctx context.Context, conn *websocket.Conn, bufSize int) xportO
 		}
 		obs.Partial = &xportMsg{int(typ), data}
 		obs.Err = rerr
+		obs.AfterErr = xportReadAfterError(r)
 		return obs
 	}
 	obs.Stuck = "more than 4096 messages delivered from a finite script"
